@@ -5,7 +5,8 @@ import os
 from lib.verif import *
 
 THEOREMS = [
-    "C07_add_once", "C07_one_response_per_run", "C07_restart_exact", "C07_rollback",
+    "C07_add_once", "C07_adds_returned_are_decided", "C07_one_response_per_run",
+    "C07_restart_exact_partial", "C07_rollback_partial",
 ]
 MODULE = "LV.Circuit.Props"
 TARGETS = ["theories/Circuit/Props.vo", "theories/Circuit/Exec.vo", "theories/Circuit/Examples.vo"]
@@ -90,6 +91,7 @@ def case_term(c):
 # ---- property predicate on the implementation's own trace ----------------------
 
 EMPTY = {"np": 0, "no": 0, "p": [], "o": []}
+nrestart_checked = [0]
 
 
 def kt(k):
@@ -150,10 +152,14 @@ def predicate(case):
     implementation's returned values and lookups are used."""
     fails = []
     seq = case["mode"] in ("seq", "exh")
-    responded, added = set(), set()
+    responded, addev = set(), {}
     calls = {}            # thread -> dict(kind, args, pre snapshot, removed keys, adds)
     prev = EMPTY
     mem_is_disk = True    # no failed trim transaction since the last restart, no call in flight
+    # protocol-clean: no incoming key was ever given a second keystone and no batch reused an
+    # outgoing key (the link opens a circuit once, with a fresh htlc index); otherwise stray
+    # keystones can exist on disk that the pre-restart memory does not show
+    clean = True
     for n, st in enumerate(case["steps"]):
         i, o, snap = st["in"], st["out"], st["snap"]
         if i[0] == "call":
@@ -172,7 +178,13 @@ def predicate(case):
                 info["removed"] = rem
                 for k in rem:
                     responded.discard(k)
-                    added.discard(k)
+                    addev.setdefault(k, []).append((n, "clear"))
+            if kind == "open":
+                ins = [kt(x[0:2]) for x in i[3]]
+                outs_ = [kt(x[2:4]) for x in i[3]]
+                have = {kt(e[1][0:2]) for e in prev["o"]}
+                if len(set(ins)) != len(ins) or len(set(outs_)) != len(outs_) or have & set(ins):
+                    clean = False
             if kind in ("close", "fail") and o[0] == "circ":
                 k = kt(o[1][0:2])
                 if k in responded:
@@ -197,18 +209,15 @@ def predicate(case):
             if info is not None:
                 if info["kind"] == "commit":
                     if o[0] == "commit" and not o[4]:
+                        # the Add decision is taken in the call's memory phase
                         for k in (kt(x) for x in o[1]):
-                            if k in added:
-                                fails.append(("C07_add_once",
-                                              "step %d: %s returned in Adds twice without an "
-                                              "intervening delete/rollback/restart" % (n, k)))
-                            added.add(k)
+                            addev.setdefault(k, []).append((info["step"], "add"))
                         if seq and [kt(x) for x in o[1]] != info["adds"]:
                             fails.append(("C07_add_once", "step %d: Adds %s differ from the keys that "
                                           "were not pending %s" % (n, o[1], info["adds"])))
                     else:
                         for k in info["adds"]:
-                            added.discard(k)
+                            addev.setdefault(k, []).append((n, "clear"))
                             responded.discard(k)
                         if o[0] == "commit" and o[1]:
                             fails.append(("C07_rollback", "step %d: failed commit still returned Adds" % n))
@@ -220,7 +229,8 @@ def predicate(case):
                                       % (info["step"], n, info["kind"])))
         elif i[0] == "restart":
             rc = i[1]
-            if seq and mem_is_disk and not calls and single_ks(prev) and snap_wf(prev):
+            if seq and clean and mem_is_disk and not calls and single_ks(prev) and snap_wf(prev):
+                nrestart_checked[0] += 1
                 pend, opened, outs = expected_after_restart(prev, rc)
                 gotp = {kt(e[0]): e[1] for e in snap["p"]}
                 goto = {kt(e[0]): e[1] for e in snap["o"]}
@@ -247,14 +257,22 @@ def predicate(case):
                 fails.append(("C07_restart_exact", "step %d: restored circuit not marked LoadedFromDisk" % n))
             # second restart with an empty configuration must change nothing
             if prev is not EMPTY and n > 0 and case["steps"][n - 1]["in"][0] == "restart" \
-                    and not rc["closed"] and not rc["active"] and single_ks(prev) and snap != prev:
+                    and not rc["closed"] and not rc["active"] and clean and single_ks(prev) and snap != prev:
                 fails.append(("C07_restart_exact", "step %d: a second restart changed the state: memory "
                               "after restart was not what is on disk" % n))
             responded.clear()
-            added.clear()
+            for k in addev:
+                addev[k].append((n, "clear"))
             calls.clear()
             mem_is_disk = True
         prev = snap
+    for k, evs in addev.items():
+        last = None
+        for tm, what in sorted(evs):
+            if what == "add" and last == "add":
+                fails.append(("C07_add_once", "commit at step %d: %s handed out in Adds twice without an "
+                              "intervening delete/rollback/restart" % (tm, k)))
+            last = what
     return fails
 
 
@@ -336,8 +354,8 @@ def run(ctx):
         "kvdb: one kvdb.Update/Batch = one atomic, durable step (bbolt is exercised, not modelled)",
         "PaymentCircuit Encode/Decode and the error-encrypter re-extraction are exercised by the "
         "harness (restored circuits are compared field by field) but not modelled",
-        "C07_restart_exact (trim clause) assumes outgoing keystones at/above the committed index "
-        "form a contiguous block (stated in the theorem; the link allocates ids in order)"])
+        "PARTIAL theorems: the surviving-keystone clause of restart and DeleteCircuits' rollback are "
+        "tied by the correspondence run and the implementation-side predicate only (notes/C07.md)"])
     env = {}
     if ctx.replay:
         try:
@@ -402,6 +420,7 @@ def run(ctx):
         "injected_tx_failures": dfails,
         "samples": [[s["in"] for s in allrows[0]["steps"][:8]]],
         "correspondence_mismatches": nbad, "predicate_failures": nfail,
+        "restarts_checked_against_set_level_spec": nrestart_checked[0],
     })
     ctx.assumptions += [
         "atomicity/durability of a kvdb transaction (bbolt) is assumed, not proved",
